@@ -665,7 +665,7 @@ def gen_plan(rng, sflp, actsp, adversarial):
             lo, hi = ev(a[3], ps, sfl), ev(a[4], ps, sfl)
             lo = F(1) if lo is None else lo
             hi = lo + 3 if hi is None or hi < lo else hi
-            d = rs(rng.choice([lo, hi, (lo + hi) / 2, lo + F(1, 2), hi + 1]))
+            d = rs(rng.choice([lo, hi, (lo + hi) / 2, lo + F(1, 2), hi + 1, -first_end_delay(a), -first_end_delay(a) + F(1, 2)]))
             if F(d) <= 0:
                 d = "1"
         else:
@@ -798,18 +798,22 @@ def shrink(payload):
 
 
 MANIFEST = {
-    "level_text": ("Lean 4 theorems (Props/C29.lean) about an executable model of _forward_plan_to_plan/_back_plan_to_plan: for every "
-                   "problem and every plan whose instances are instantaneous or of fixed duration with the declared durations, "
-                   "back(forward(plan)) succeeds and is a permutation of plan (C29_inverse_fixed); every compiled end event of any "
-                   "forward plan lies strictly after the start and not after the end of an instance of its action with the same "
-                   "parameters, and end events exist only for variable-duration actions (C29_end_inside); forward is total on plans "
-                   "long enough for their first end-relative timing (C29_forward_total); the round trip also holds for variable "
-                   "durations when instances of one (action, parameters) are strictly separated (C29_inverse_variable_partial). "
-                   "The model is tied to the code by a differential check of both conversions on generated problems/plans and by "
-                   "a direct oracle of the property on the real code."),
+    "level_text": ("Lean 4 theorems (Props/C29.lean) about an executable model of _forward_plan_to_plan/_back_plan_to_plan, for all "
+                   "problems, plan lengths, parameters and rational times: for every plan whose instances are instantaneous or of "
+                   "fixed duration with the declared durations, back(forward(plan)) succeeds and is a permutation of plan "
+                   "(C29_inverse_fixed; forward is then exactly one start event per instance, C29_forward_fixed_shape); every compiled "
+                   "end event of any forward plan lies strictly after the start and not after the end of an instance of its "
+                   "variable-duration action with the same parameters (C29_end_inside), every instance is started exactly once at "
+                   "its start time (C29_forward_starts), and forward is total on plans long enough for their first end-relative "
+                   "timing (C29_forward_total, C29_endDelay_nonpos). Extra: the round trip also holds with variable durations when "
+                   "instances of one (action, parameters) are strictly separated (C29_inverse_variable_partial); without that proviso "
+                   "it is refuted on a concrete witness (C29_inverse_variable_full_refuted; outside this property's quantifier). "
+                   "The model is tied to the code by a differential check of both conversions on generated problems/plans "
+                   "(including adversarial compiled plans for the back conversion) and by a direct oracle of the property on the real code."),
     "level_note": ("Trusted: Lean kernel; axioms propext, Classical.choice, Quot.sound; the correspondence harness. Modelled not verified: "
                    "Simplifier/Substituter on duration bounds (model uses the bound's exact value), fresh-name injectivity of the "
-                   "compiled-action dictionaries, dict order, sorted() stability, Fraction."),
+                   "compiled-action dictionaries, dict order, sorted() stability, Fraction. Reading decisions: multiset equality; "
+                   "durations as declared; 'inside' = (start, start+duration]."),
     "technique": "Lean 4 proof over an executable model + model/code correspondence",
     "design_ref": "DESIGN.md §5 C29",
 }
